@@ -370,6 +370,11 @@ pub fn run(r: &Report) {
     r.set_extra("issuance_inputs", json!(cases.len()));
     use rayon::prelude::*;
     cases.par_iter().for_each(|i| check_input(r, i));
+    // the same cases on ONE thread, forwards and backwards (hidden memo state between derivations)
+    for i in cases.iter().chain(cases.iter().rev()) {
+        check_input(r, i);
+    }
+    r.set_extra("sequential_history_cases", json!(2 * cases.len()));
     // AssetId entry points against the reference
     for tp in 0..8usize {
         for &vout in &[0u32, 1, (1 << 30) - 1, 0xffff_ffff] {
